@@ -2,7 +2,7 @@
    arithmetic (real kernel; the complex kernel is covered by correspondence, see DESIGN). *)
 From Coq Require Import ZArith List Bool Reals Lra.
 From Coquelicot Require Import Coquelicot.
-From GTCV Require Import Num RNum Vector VectorFacts Opres KTypes Kernel DerivTable ChainRule ValueFacts.
+From GTCV Require Import Num RNum Vector VectorFacts Opres KTypes Kernel DerivTable PowInt ChainRule ValueFacts.
 Import ListNotations.
 Local Open Scope R_scope.
 
@@ -21,6 +21,29 @@ Proof.
   exact (DenOp_val U I e0 o (sem Fi e) (eval_un_sound U I e0 s Fi Hin e o Hreg Hev)).
 Qed.
 Print Assumptions C01_value_is_plain_arithmetic.
+
+(* (1b) what `sem` says of ** : Python's value wherever Python returns a real number -- the
+   repeated multiplication/division x ** n for an integer-valued exponent and ANY base
+   (negative, zero for n >= 0), exp(y ln x) for a positive base -- and `regular` admits every
+   base when the exponent is a plain integer-valued number, so (1) covers e.g. (a-b)**2 and
+   (a-b)**-1 for a < b. *)
+Theorem C01_power_is_python_power :
+  forall (l r v : R), pow_R l r = Ok v -> binop_R B_pow l r = v.
+Proof. intros l r v H. cbn [binop_R]. symmetry. apply pow_R_sem. exact H. Qed.
+Print Assumptions C01_power_is_python_power.
+
+Theorem C01_integer_power_any_base :
+  forall (Fi : nat -> env -> R) (e0 : env) (e1 : Kernel.expr RNum) (n : Z),
+    regular Fi e0 e1 ->
+    regular Fi e0 (EBin RNum B_pow e1 (ENum RNum (IZR n))) /\
+    (sem Fi e1 e0 <> 0 \/ (0 <= n)%Z ->
+     sem Fi (EBin RNum B_pow e1 (ENum RNum (IZR n))) e0 = powerRZ (sem Fi e1 e0) n).
+Proof.
+  intros Fi e0 e1 n H. split.
+  - simpl. repeat split; auto. right. split; [reflexivity|]. exists n; reflexivity.
+  - intros Hc. cbn [sem binop_R]. apply pow_sem_int. exact Hc.
+Qed.
+Print Assumptions C01_integer_power_any_base.
 
 (* (2) the role of an operand never matters: for EVERY number instance N (the binary64 one
    included), replacing an operand by any other object with the same value -- elementary,
